@@ -52,6 +52,13 @@ CHECKS = {
              "shown never to encode to 0 by a small non-zero dataflow; the generated plumbing is checked per method on the corpus and repository traits.",
         note="trusts NonZeroI32/MaybeUninit semantics; user-defined IntError impls outside the repository are out of scope",
         ref="4 C13"),
+    "C15": dict(
+        cat="other",
+        technique="loop-body path enumeration and dominance rules over MIR (exactly-one call per item, counter update before it, exit on false/exhaustion), exactly-once rules on trampolines, arm rules on the iterator protocol",
+        text="loop-body invariance turns `for every item sequence and stop position` into a finite set of paths through each feeding loop; trampolines, "
+             "pair constructions and the CIterator protocol are straight-line or single-match functions, so shape rules decide them for every input.",
+        note="behaviour of the wrapped closure/iterator is outside the property; trusts Iterator::next / MaybeUninit semantics",
+        ref="4 C15"),
 }
 
 NOT_APPLICABLE = {
